@@ -353,7 +353,8 @@ class C02(fw.Property):
     level_text = ("Theorems (closed under the global context) over Model/C02.v for ALL event lists: responses are delivered only to the outstanding request registered under "
                   "(token, source endpoint) (or (token, None) for a multicast request); unmatched CON responses yield exactly one RST (none when received on a multicast address), "
                   "matched ones exactly one empty ACK; every request completes at most once and only with a library error class; a completed non-observe request's key is gone; "
-                  "transport errors / shutdown / RST / retransmission give-up fail the affected outstanding requests; tokens of outstanding requests are pairwise different (< 2^64 requests). "
+                  "transport errors / shutdown / RST / retransmission give-up fail the affected outstanding requests, including the request being sent when the transport refuses it from inside send_message "
+                  "(registration before send); tokens of outstanding requests are pairwise different (< 2^64 requests). "
                   "The model is tied to the code by comparing complete per-event output traces and final tables with the real objects.")
     level_note = ("Liveness is conditional (section 7 of the design): NON requests and empty-ACKed CON requests without response stay pending by design. The transport-error / give-up theorems are "
                   "unconditional since /repo commit a3add01 (udp6 address == None is False; before, dispatch_error raised AttributeError while a multicast request was pending - the oracle keeps the "
@@ -363,7 +364,9 @@ class C02(fw.Property):
             "outstanding/retired requests as piggy-backed ACK / separate CON / NON / ACK with wrong mid, genuine or forged (right token+wrong remote, mutated/guessed/retired token), duplicated, "
             "delayed and reordered, received on unicast or multicast addresses; empty ACK/RST/ping with right or wrong mid/remote; codes that do not fit; timer firings and time advances; "
             "transport errors per remote (OSError, NetworkError, subclasses); response-future cancellation; observation cancellation; shutdown at any point followed by more traffic; "
-            "token counter near 2^64 and mid counter near 2^16. Streams: random, nomc (unicast only), timeout (all timers until silence), shutdown, forge. "
+            "token counter near 2^64 and mid counter near 2^16; the transport refusing datagrams to a remote synchronously (send() calls MessageManager.dispatch_error(OSError) from inside, as udp6 does when "
+            "sendmsg fails), switched on/off at any point, with NON / acknowledged CON / un-acked CON + backlog / observations outstanding to that remote, refused ACK/RST replies, refused retransmissions "
+            "and refused backlog releases. Streams: random, nomc (unicast only), timeout (all timers until silence), shutdown, forge, refuse. "
             "Non-trivial = at least one response delivered and at least one response rejected (unmatched) in the same script; distinct by full script.")
     trusted_base = ["translator translate/py2v.py (+ the lstrip rule in translate/jobs/c02.py) and Lib/Py.v prelude, validated by the token outputs of every script",
                     "hand-written Model/C02.v, validated by the correspondence streams (complete traces, 0 disagreements required)",
@@ -371,6 +374,7 @@ class C02(fw.Property):
     assumptions = ["each external event is followed by running the event loop until the ready queue is empty (event + its consequences = one model step)",
                    "the application cancels an observation only after the first response arrived; request ids are fresh",
                    "no datagram is dispatched after Context.shutdown (the transport is closed)",
+                   "a refusing transport is the fake interface's send() calling dispatch_error(OSError(ENETUNREACH), remote) before returning, nothing on the wire (udp6.py:504/694); only unicast remotes refuse",
                    "time.time() frozen for the observation freshness rule; random.uniform returns the script's ACK timeout"]
 
     def gen_cases(self, tier, rng, n):
